@@ -2204,3 +2204,150 @@ Proof.
     + destruct pos as [v|]; [reflexivity|].
       change (wrap kw) with ([] ++ wrap kw). apply (REST [] kw); left; reflexivity.
 Qed.
+
+(* ------------------------------------------------------------------ class tables *)
+(* single inheritance: every class has at most one base, defined earlier; names are unique *)
+Fixpoint wf_table (ct : list cdesc) : Prop :=
+  match ct with
+  | [] => True
+  | k :: older =>
+      ~ In (k_id k) (map k_id older)
+      /\ (k_bases k = [] \/ exists p, k_bases k = [p] /\ In p (map k_id older))
+      /\ wf_table older
+  end.
+
+Definition mro_at (ct : list cdesc) (c : cid) : list cid :=
+  match assoc c (mro_tab ct) with Some m => m | None => [] end.
+
+Definition descs (ct : list cdesc) (m : list cid) : list cdesc :=
+  flat_map (fun x => match find_desc x ct with Some k => [k] | None => [] end) m.
+
+Lemma anc_descs ct c : anc ct c = descs ct (mro_at ct c).
+Proof. reflexivity. Qed.
+
+Lemma descs_cons_notin k older m :
+  ~ In (k_id k) m -> descs (k :: older) m = descs older m.
+Proof.
+  unfold descs. induction m as [|x t IH]; intro H; [reflexivity|].
+  cbn [flat_map]. unfold find_desc at 1. cbn [find].
+  destruct (k_id k =? x) eqn:E; [apply Nat.eqb_eq in E; exfalso; apply H; left; symmetry; exact E|].
+  fold (find_desc x older). f_equal. apply IH. intro H1. apply H. right. exact H1.
+Qed.
+
+Lemma mro_at_head k older :
+  mro_at (k :: older) (k_id k)
+  = mro_of (k_id k) (map (fun b => mro_at older b) (k_bases k)) (k_bases k).
+Proof. unfold mro_at. cbn [mro_tab assoc]. rewrite Nat.eqb_refl. reflexivity. Qed.
+
+Lemma mro_at_other k older c : c <> k_id k -> mro_at (k :: older) c = mro_at older c.
+Proof.
+  intro N. unfold mro_at. cbn [mro_tab assoc].
+  destruct (k_id k =? c) eqn:E; [apply Nat.eqb_eq in E; congruence | reflexivity].
+Qed.
+
+Lemma ranc_head r rt : ranc (r :: rt) (rc_id r) = rcls_along (r :: rt) (rc_mro r).
+Proof. unfold ranc. rewrite find_cls_head. reflexivity. Qed.
+
+Lemma find_cls_other r rt c : c <> rc_id r -> find_cls c (r :: rt) = find_cls c rt.
+Proof.
+  intro N. unfold find_cls. cbn [find].
+  destruct (rc_id r =? c) eqn:E; [apply Nat.eqb_eq in E; congruence | reflexivity].
+Qed.
+
+Lemma find_cls_head' r l c : rc_id r = c -> find_cls c (r :: l) = Some r.
+Proof. intro H. subst c. apply find_cls_head. Qed.
+
+Lemma ranc_head' r rt c : rc_id r = c -> ranc (r :: rt) c = rcls_along (r :: rt) (rc_mro r).
+Proof. intro H. subst c. apply ranc_head. Qed.
+
+Record tab_inv (ct : list cdesc) (c : cid) : Prop := {
+  ti_closed : forall x, In x (mro_at ct c) -> In x (map k_id ct);
+  ti_chain : chain (anc ct c);
+  ti_ids : map k_id (anc ct c) = mro_at ct c;
+  ti_head : exists t, mro_at ct c = c :: t;
+  ti_found : exists rc, find_cls c (resolve_all cur ct) = Some rc /\ rc_mro rc = mro_at ct c;
+  ti_ranc : ranc (resolve_all cur ct) c = rchain (anc ct c);
+  ti_sub : forall x, In x (anc ct c) -> In x ct;
+}.
+
+Lemma rc_id_resolve_one q k b : rc_id (resolve_one q k b) = k_id k.
+Proof. reflexivity. Qed.
+
+Lemma tab_inv_all ct : wf_table ct -> forall c, In c (map k_id ct) -> tab_inv ct c.
+Proof.
+  induction ct as [|k older IH]; intros WF c Hc; [contradiction|].
+  destruct WF as [NI [BS WF]]. specialize (IH WF).
+  set (rt := resolve_all cur older).
+  set (rc := resolve_one cur k (map (ranc rt) (k_bases k))).
+  assert (RA : resolve_all cur (k :: older) = rc :: rt) by reflexivity.
+  destruct (Nat.eq_dec c (k_id k)) as [EC|NC].
+  - subst c. destruct BS as [B0|[p [B1 Hp]]].
+    + (* a root class *)
+      assert (EM : mro_at (k :: older) (k_id k) = [k_id k]) by (rewrite mro_at_head, B0; reflexivity).
+      assert (EA : anc (k :: older) (k_id k) = [k]).
+      { rewrite anc_descs, EM. unfold descs, find_desc. simpl. rewrite Nat.eqb_refl. reflexivity. }
+      assert (ER : rc_mro rc = [k_id k]) by (unfold rc; rewrite B0; reflexivity).
+      constructor.
+      * rewrite EM. intros x [H|[]]. subst. left. reflexivity.
+      * rewrite EA. simpl. split; [intros []|]. split; [exact B0 | exact I].
+      * rewrite EA, EM. reflexivity.
+      * exists []. exact EM.
+      * exists rc. rewrite RA. split; [apply find_cls_head'; reflexivity | rewrite ER, EM; reflexivity].
+      * rewrite RA. rewrite (ranc_head' rc rt (k_id k) eq_refl), ER.
+        rewrite rcls_along_cons. rewrite (find_cls_head' rc rt (k_id k) eq_refl).
+        rewrite EA. unfold rc. rewrite B0. reflexivity.
+      * rewrite EA. intros x [H|[]]. subst. left. reflexivity.
+    + (* one base p *)
+      destruct (IH p Hp) as [PC PCh PI [pt PH] [rp [PF PM]] PR PS].
+      assert (EM : mro_at (k :: older) (k_id k) = k_id k :: mro_at older p)
+        by (rewrite mro_at_head, B1; reflexivity).
+      assert (NM : ~ In (k_id k) (mro_at older p)) by (intro H; apply NI; apply PC; exact H).
+      assert (EA : anc (k :: older) (k_id k) = k :: anc older p).
+      { rewrite anc_descs, EM. unfold descs at 1. cbn [flat_map]. unfold find_desc at 1. cbn [find].
+        rewrite Nat.eqb_refl. cbn [app]. f_equal.
+        change (descs (k :: older) (mro_at older p) = anc older p).
+        rewrite descs_cons_notin by exact NM. reflexivity. }
+      assert (EP : ranc rt p = rchain (anc older p)) by exact PR.
+      assert (NE : anc older p <> []).
+      { intro H. rewrite H in PI. rewrite PH in PI. discriminate. }
+      assert (ER : rc_mro rc = k_id k :: mro_at older p).
+      { unfold rc. rewrite B1. cbn [map]. rewrite EP. unfold resolve_one. cbn [rc_mro map mro_of].
+        rewrite rchain_ids, PI. reflexivity. }
+      constructor.
+      * rewrite EM. intros x [H|H]; [subst; left; reflexivity | right; apply PC; exact H].
+      * rewrite EA. destruct (anc older p) as [|ph ptl] eqn:AP; [congruence|].
+        cbn [chain]. split; [|split].
+        -- rewrite PI. exact NM.
+        -- rewrite B1. f_equal. rewrite PH in PI. cbn [map] in PI. injection PI as PI _. symmetry. exact PI.
+        -- exact PCh.
+      * rewrite EA, EM. cbn [map]. f_equal. exact PI.
+      * exists (mro_at older p). exact EM.
+      * exists rc. rewrite RA. split; [apply find_cls_head'; reflexivity | rewrite ER, EM; reflexivity].
+      * rewrite RA. rewrite (ranc_head' rc rt (k_id k) eq_refl), ER.
+        rewrite rcls_along_cons. rewrite (find_cls_head' rc rt (k_id k) eq_refl).
+        cbn [app]. rewrite rcls_along_cons_notin by exact NM.
+        rewrite EA. cbn [rchain].
+        assert (EQ : rcls_along rt (mro_at older p) = rchain (anc older p)).
+        { rewrite <- EP. unfold ranc. fold rt in PF. rewrite PF, PM. reflexivity. }
+        rewrite EQ. f_equal. unfold rc. rewrite B1. cbn [map]. rewrite EP.
+        destruct (anc older p); [congruence | reflexivity].
+      * rewrite EA. intros x [H|H]; [subst; left; reflexivity | right; apply PS; exact H].
+  - (* an older class *)
+    assert (Hc' : In c (map k_id older)) by (destruct Hc as [H|H]; [congruence | exact H]).
+    destruct (IH c Hc') as [PC PCh PI [pt PH] [rp [PF PM]] PR PS].
+    assert (EM : mro_at (k :: older) c = mro_at older c) by (apply mro_at_other; exact NC).
+    assert (NM : ~ In (k_id k) (mro_at older c)) by (intro H; apply NI; apply PC; exact H).
+    assert (EA : anc (k :: older) c = anc older c).
+    { rewrite !anc_descs, EM. apply descs_cons_notin. exact NM. }
+    constructor.
+    + rewrite EM. intros x H. right. apply PC. exact H.
+    + rewrite EA. exact PCh.
+    + rewrite EA, EM. exact PI.
+    + exists pt. rewrite EM. exact PH.
+    + exists rp. rewrite RA. split; [rewrite find_cls_other by exact NC; exact PF
+                        | rewrite EM; exact PM].
+    + rewrite RA. unfold ranc. rewrite find_cls_other by exact NC.
+      fold rt in PF. rewrite PF. rewrite rcls_along_cons_notin by (rewrite PM; exact NM).
+      rewrite EA, <- PR. unfold ranc. fold rt. rewrite PF. reflexivity.
+    + rewrite EA. intros x H. right. apply PS. exact H.
+Qed.
